@@ -29,6 +29,21 @@ def leapToUnix (leaps : List LeapSecond) (ult : Int) : Option Int :=
 /-- leap-second records in strictly increasing time order -/
 def LeapsSorted (ls : List LeapSecond) : Prop := List.Pairwise (fun a b : LeapSecond => a.time < b.time) ls
 
+/-- consecutive leap-second records: at least 28 days − 1 s apart, corrections differing by exactly
+one second (plain integer arithmetic; nothing saturates) -/
+def LeapPairsOk : List LeapSecond → Prop
+  | [] => True
+  | [_] => True
+  | x0 :: x1 :: rest =>
+    x1.time - x0.time ≥ 2419199 ∧ (x1.corr - x0.corr).natAbs = 1 ∧ LeapPairsOk (x1 :: rest)
+
+/-- the leap-second table constraints of RFC 8536 as `validate` enforces them: the first record is
+at a non-negative time with correction +1 or −1, consecutive records are `LeapPairsOk` -/
+def LeapsOk (ls : List LeapSecond) : Prop :=
+  (match ls with
+    | [] => True
+    | l0 :: _ => 0 ≤ l0.time ∧ l0.corr.natAbs = 1) ∧ LeapPairsOk ls
+
 /-- rule / table agreement as `validate` demands it: with `last` the last transition and `ut` its
 instant, the rule lookup (C05's model of `TransitionRule::find_local_time_type`) succeeds at `ut` and
 returns exactly the local time type `last` switches to (`Ltt` equality = same offset, DST flag and
